@@ -14,15 +14,18 @@
                   bad base64, duplicate member, null list element, ...): nothing is demanded.
        First non-ok member in document order decides (the converter is a one-pass stream processor).
        [j2p_spec] = encode_msg o denote.
-       With [strict = true] the denotation is restricted to the documents on which the converter AS CODED is
-       correct (no null members, no empty containers, ... see [denote] below); that is the domain of the
-       refinement theorem.  [strict = false] is the property's domain.
+       With [strict = true] the denotation is restricted by the decidable residue on which the converter is not byte-exact
+       (float32 double rounding, empty array of a packed field, payloads >= 2^31, field numbers out of range, fields
+       declared [packed=false]): that is the domain of the refinement and error theorems.  [strict = false] is the
+       property's domain; wherever the strict denotation is defined the two agree (J2PProofs.denote_top_rr).
 
-   (b) ALGORITHM LEVEL.  [sax_run]: conv/j2p/decode.go statement by statement over the event stream of the
-       parsed document ([events], document order = what sonic's ast.Preorder delivers): stack of frames
-       (kind, root message | field descriptor, position of the speculative length byte), globalFieldDesc,
-       inskip, output buffer as a byte list, [finish_spec] (model/ProtoSpecLen.v) on close.  Go nil
-       dereferences / slice-bound failures are explicit [MPanic] results. *)
+   (b) ALGORITHM LEVEL.  [sax_run]: conv/j2p/decode.go AS IT STANDS (after the repairs of findings 901..906 and of
+       [packed=false]) statement by statement over the event stream of the parsed document ([events], document order =
+       what sonic's ast.Preorder delivers): stack of STK_DEPTH = 256 frames (kind, root message | field descriptor,
+       position of the speculative length byte), globalFieldDesc, inskip, output buffer as a byte list, [finish_spec]
+       (model/ProtoSpecLen.v) on close, checkScalarField and the kind checks of the Begin callbacks.  Go nil dereferences /
+       slice-bound failures would be explicit [MPanic] results (none is reachable any more).
+       [frames_needed]: the exact number of frames a document uses. *)
 From Coq Require Import ZArith List Bool Arith.
 From DG Require Import CaseFormat ProtoWireRef ProtoSpecLen ProtoMsg Json Num Base64.
 Import ListNotations.
@@ -95,51 +98,70 @@ Inductive sres := SBytes (b : list Z) | SErr | SUnmod.
 Definition lenpref (b : list Z) : list Z := varint_enc (plen b) ++ b.
 Definition scalar_payload (k : Z) (e : ev) : sres :=
   match e with
-  | EvBool b => SBytes [if b then 1 else 0]                     (* OnBool never looks at the kind *)
+  | EvBool b => if k =? 8 then SBytes [if b then 1 else 0] else SErr      (* OnBool: "param isn't boolType" *)
   | EvStr s =>
-    if k =? 12 then match b64_decode s with Some b => SBytes (lenpref b) | None => SErr end
+    if k =? 12 then
+      (* Go's base64 decoders skip CR and LF *)
+      match b64_decode (filter (fun c => negb ((c =? 10) || (c =? 13))) s) with Some b => SBytes (lenpref b) | None => SErr end
     else if k =? 9 then (if utf8_valid s then SBytes (lenpref s) else SErr)
     else SErr
   | EvNum lex =>
+    (* the default branch of both OnInt64 and OnFloat64 *)
+    if negb (is_int_kind k || (k =? 1) || (k =? 2) || (k =? 14)) then SErr else
     match num_class lex with
     | NInt v =>
       if is_int_kind k then SBytes (wenc_val (scalar_to_wire k (goconv k v)))
+      else if k =? 14 then SBytes (wenc_val (scalar_to_wire 14 (to_s 32 v)))     (* WriteEnum(EnumNumber(int32(v))) *)
       else if k =? 2 then SBytes (le_enc 4 (int2f32 v))
-      else if k =? 1 then SBytes (le_enc 8 (int2f64 v))
-      else SErr
+      else SBytes (le_enc 8 (int2f64 v))
     | NFloat bits =>
       if k =? 2 then match f32_of_f64 bits with Some b => SBytes (le_enc 4 b) | None => SUnmod end
       else if k =? 1 then SBytes (le_enc 8 bits)
       else if k =? 5 then match f64_trunc 32 bits with Some z => SBytes (wenc_val (scalar_to_wire 5 z)) | None => SUnmod end
       else if k =? 3 then match f64_trunc 64 bits with Some z => SBytes (wenc_val (scalar_to_wire 3 z)) | None => SUnmod end
+      else if (k =? 4) || (k =? 6) then
+        (* integers beyond int64 arrive as float64: strconv.ParseUint(string(n), 10, 64) on the number text *)
+        (if forallb is_digit lex then
+           let z := digits_val lex 0 in
+           if z <? 2 ^ 64 then SBytes (wenc_val (scalar_to_wire k z)) else SErr
+         else SErr)
       else SErr
     | NBad => SUnmod
     end
   | _ => SErr
   end.
 
-(* strconv.ParseInt(key, 10, bits) with the error dropped: the clamped value on range errors, 0 on syntax errors *)
-Definition go_parse_int (s : list Z) (bits : Z) : Z :=
+(* strconv.ParseInt(key, 10, bits): optional sign, digits; None = syntax or range error *)
+Definition go_parse_int (s : list Z) (bits : Z) : option Z :=
   let body := match s with c :: r => if (c =? 43) || (c =? 45) then r else s | [] => s end in
   let neg := match s with c :: _ => c =? 45 | [] => false end in
   match body with
-  | [] => 0
+  | [] => None
   | _ =>
     if forallb is_digit body then
       let a := digits_val body 0 in
       let z := if neg then - a else a in
-      if z <? - 2 ^ (bits - 1) then - 2 ^ (bits - 1) else if 2 ^ (bits - 1) <=? z then 2 ^ (bits - 1) - 1 else z
-    else 0
+      if (z <? - 2 ^ (bits - 1)) || (2 ^ (bits - 1) <=? z) then None else Some z
+    else None
   end.
-Definition go_parse_bool (s : list Z) : bool :=
-  existsb (bytes_eqb s) [[49]; [116]; [84]; [84; 82; 85; 69]; lit_true; [84; 114; 117; 101]].
+(* strconv.ParseUint(key, 10, bits): digits only *)
+Definition go_parse_uint (s : list Z) (bits : Z) : option Z :=
+  match s with
+  | [] => None
+  | _ => if forallb is_digit s then (let z := digits_val s 0 in if z <? 2 ^ bits then Some z else None) else None
+  end.
+Definition go_parse_bool (s : list Z) : option bool :=
+  if existsb (bytes_eqb s) [[49]; [116]; [84]; [84; 82; 85; 69]; lit_true; [84; 114; 117; 101]] then Some true
+  else if existsb (bytes_eqb s) [[48]; [102]; [70]; [70; 65; 76; 83; 69]; lit_false; [70; 97; 108; 115; 101]] then Some false
+  else None.
 
+(* encodeMapKey: every parse error is returned *)
 Definition encode_map_key (buf : list Z) (key : list Z) (kk : Z) : option (list Z) :=
-  if kk =? 5 then Some (buf ++ varint_enc (go_parse_int key 32 mod 2 ^ 64))
-  else if kk =? 13 then Some (buf ++ varint_enc (go_parse_int key 32 mod 2 ^ 32))
-  else if kk =? 4 then Some (buf ++ varint_enc (go_parse_int key 64 mod 2 ^ 64))
-  else if kk =? 3 then Some (buf ++ varint_enc (go_parse_int key 64 mod 2 ^ 64))
-  else if kk =? 8 then Some (buf ++ [if go_parse_bool key then 1 else 0])
+  if kk =? 5 then match go_parse_int key 32 with Some z => Some (buf ++ varint_enc (z mod 2 ^ 64)) | None => None end
+  else if kk =? 13 then match go_parse_uint key 32 with Some z => Some (buf ++ varint_enc z) | None => None end
+  else if kk =? 4 then match go_parse_uint key 64 with Some z => Some (buf ++ varint_enc z) | None => None end
+  else if kk =? 3 then match go_parse_int key 64 with Some z => Some (buf ++ varint_enc (z mod 2 ^ 64)) | None => None end
+  else if kk =? 8 then match go_parse_bool key with Some b => Some (buf ++ [if b then 1 else 0]) | None => None end
   else if kk =? 9 then (if utf8_valid key then Some (buf ++ lenpref key) else None)
   else None.
 
@@ -259,7 +281,7 @@ Section Denote.
     (* one value of type t (singular field, list element or map value); never null *)
     Definition den_single (t : ftype) (v : json) : res pval :=
       match t with
-      | TScalar k => denote_scalar k v
+      | TScalar k => if strict && (k =? K_MESSAGE) then RUndef else denote_scalar k v     (* ill-formed schema *)
       | TMsg name =>
         match v with
         | JNull => RUndef
@@ -267,8 +289,7 @@ Section Denote.
           match find_msg S name with
           | None => RUndef
           | Some md =>
-            if strict && negb (has_known md ms) then RUndef        (* as coded: an object without a known member is not popped *)
-            else res_bind (rec md ms) (fun fs =>
+            res_bind (rec md ms) (fun fs =>
                  if strict && negb (plen (encode_msg fs) <? 2 ^ 31) then RUndef else ROk (VMsg fs))
           end
         | _ => RErr
@@ -287,6 +308,7 @@ Section Denote.
       | (k, x) :: r =>
         res_bind (denote_key kk k) (fun key =>
         res_bind (den_single t x) (fun v =>
+        if strict && negb (plen (wenc (key_field key :: wfld 2 v)) <? 2 ^ 31) then RUndef else
         res_bind (den_entries kk t r) (fun kvs => ROk ((key, v) :: kvs))))
       end.
 
@@ -294,16 +316,19 @@ Section Denote.
     Definition den_field (fd : fdesc) (v : json) : res (option pval) :=
       match fd_label fd with
       | LSingular => res_bind (den_single (fd_type fd) v) (fun pv => ROk (Some pv))
-      | LRepeated _ =>
+      | LRepeated p =>
         match v with
         | JArr xs =>
+          (* proto3 packs numeric element types; a field declared [packed=false] is outside the modelled schemas (wf_msg
+             rejects the value below), the converter writes it unpacked *)
+          let packed := type_numeric (fd_type fd) in
+          if strict && packed && negb p then RUndef else
           res_bind (den_elems (fd_type fd) xs) (fun vs =>
           match vs with
-          | [] => if strict then RUndef else ROk None
+          | [] => if strict && packed then RUndef else ROk None  (* as coded: [] of a packed field is written as an empty run (tag, 0): same message, other bytes *)
           | _ =>
-            let pv := VList (type_numeric (fd_type fd)) vs in     (* the converter packs every numeric repeated field *)
-            if strict && type_numeric (fd_type fd) && negb (plen (flat_map packed_elem vs) <? 2 ^ 31) then RUndef
-            else ROk (Some pv)
+            if strict && packed && negb (plen (flat_map packed_elem vs) <? 2 ^ 31) then RUndef
+            else ROk (Some (VList packed vs))
           end)
         | _ => RErr
         end
@@ -312,10 +337,8 @@ Section Denote.
         | JObj ms =>
           res_bind (den_entries kk (fd_type fd) ms) (fun kvs =>
           match kvs with
-          | [] => if strict then RUndef else ROk None
-          | _ =>
-            if strict && negb (forallb (fun kx => plen (wenc (key_field (fst kx) :: wfld 2 (snd kx))) <? 2 ^ 31) kvs)
-            then RUndef else ROk (Some (VMap kvs))
+          | [] => ROk None
+          | _ => ROk (Some (VMap kvs))
           end)
         | _ => RErr
         end
@@ -328,7 +351,7 @@ Section Denote.
         match find_field_name md k with
         | None => if disallow then RErr else den_members md r
         | Some fd =>
-          if json_is_null v then (if strict then RUndef else den_members md r)
+          if json_is_null v then den_members md r
           else if strict && negb ((1 <=? fd_num fd) && (fd_num fd <=? MAX_FIELD_NUMBER)) then RUndef
           else
             res_bind (den_field fd v) (fun ov =>
@@ -396,7 +419,7 @@ Definition g_ismap (g : gdesc) : option bool :=
 Definition g_ispacked (g : gdesc) : option bool :=
   match g with
   | GZero => None
-  | GField fd => Some (match fd_label fd with LRepeated _ => type_numeric (fd_type fd) | _ => false end)
+  | GField fd => Some (match fd_label fd with LRepeated p => p && type_numeric (fd_type fd) | _ => false end)
   | GMapVal _ => Some false
   end.
 Definition g_kind (g : gdesc) : Z :=
@@ -483,7 +506,25 @@ Section Machine.
 
   Definition on_null (st : mstate) : mres :=
     if m_inskip st then MOk (set_inskip st false)
-    else match push st nil_frame with MOk st' => on_value_end st' | r => r end.
+    else match m_glob st with
+         | None =>
+           match m_stk st with
+           | [_] | [] => MErr                            (* sp == 0: "the document must be a JSON object" *)
+           | _ => MOk st                                 (* null list element: ignored *)
+           end
+         | Some _ => on_value_end st                     (* null member: absent; null map value: closes the pair *)
+         end.
+
+  (* checkScalarField *)
+  Definition check_scalar_field (st : mstate) (fd : option gdesc) : bool :=
+    match fd with
+    | None | Some GZero => false
+    | Some g =>
+      match m_glob st with
+      | Some _ => negb (match g_islist g with Some b => b | None => true end || match g_ismap g with Some b => b | None => true end)
+      | None => true
+      end
+    end.
 
   (* OnBool / OnString / OnInt64 / OnFloat64 *)
   Definition on_scalar (e : ev) (st : mstate) : mres :=
@@ -500,19 +541,14 @@ Section Machine.
              end
         else if fr_typ top =? T_ARR then fr_fd top else None
       end in
+    if negb (check_scalar_field st fd) then MErr else
     match fd with
-    | None => MPanic
+    | None => MErr
     | Some g =>
       let tagged :=
-        if is_str_ev e then
+        if is_str_ev e || negb (match g_ispacked g with Some b => b | None => false end) then
           match append_tag (m_buf st) (g_num g) (kwire (g_kind g)) with Some b => MOk (set_buf st b) | None => MErr end
-        else
-          match g_islist g with
-          | None => MPanic
-          | Some true => MOk st
-          | Some false =>
-            match append_tag (m_buf st) (g_num g) (kwire (g_kind g)) with Some b => MOk (set_buf st b) | None => MErr end
-          end in
+        else MOk st in
       match tagged with
       | MOk st1 =>
         match scalar_payload (g_kind g) e with
@@ -534,16 +570,23 @@ Section Machine.
               | None => if fr_typ top =? T_ARR then fr_fd top else None
               end in
     match fd with
-    | None => MOk st
+    | None => match m_stk st with [_] | [] => MOk st | _ => MErr end     (* the document itself / "unexpected object value" *)
     | Some g =>
-      match g_ismap g with
-      | None => MPanic
-      | Some true => push st (mk_frame T_MAP None (Some g) (-1))
-      | Some false =>
-        match append_tag (m_buf st) (g_num g) 2 with
-        | None => MErr
-        | Some b => push (set_buf st (b ++ [0])) (mk_frame T_OBJ None (Some g) (plen b))
-        end
+      match g_ismap g, g_islist g with
+      | Some ismap, Some islist =>
+        if negb (g_kind g =? K_MESSAGE) || (match m_glob st with Some _ => islist | None => false end) then MErr
+        else if ismap then
+          match push st (mk_frame T_MAP None (Some g) (-1)) with MOk st' => MOk (set_glob st' None) | r => r end
+        else
+          match append_tag (m_buf st) (g_num g) 2 with
+          | None => MErr
+          | Some b =>
+            match push (set_buf st (b ++ [0])) (mk_frame T_OBJ None (Some g) (plen b)) with
+            | MOk st' => MOk (set_glob st' None)
+            | r => r
+            end
+          end
+      | _, _ => MErr                                                       (* fieldDesc.Type() == nil *)
       end
     end.
 
@@ -609,16 +652,21 @@ Section Machine.
   Definition on_arr_begin (st : mstate) : mres :=
     if m_inskip st then MOk (set_skipd st 1) else
     match m_glob st with
-    | None => MOk st
+    | None => MErr                                                         (* "unexpected array value" *)
     | Some g =>
-      match g_ispacked g with
-      | None => MPanic
-      | Some true =>
-        match append_tag (m_buf st) (g_num g) 2 with
-        | None => MErr
-        | Some b => push (set_buf st (b ++ [0])) (mk_frame T_ARR None (Some g) (plen b))
-        end
-      | Some false => push st (mk_frame T_ARR None (Some g) (-1))
+      match g_islist g, g_ispacked g with
+      | Some true, Some packed =>
+        if packed then
+          match append_tag (m_buf st) (g_num g) 2 with
+          | None => MErr
+          | Some b =>
+            match push (set_buf st (b ++ [0])) (mk_frame T_ARR None (Some g) (plen b)) with
+            | MOk st' => MOk (set_glob st' None)
+            | r => r
+            end
+          end
+        else match push st (mk_frame T_ARR None (Some g) (-1)) with MOk st' => MOk (set_glob st' None) | r => r end
+      | _, _ => MErr
       end
     end.
 
@@ -696,3 +744,47 @@ Definition j2p_machine (disallow : bool) (S : schema) (root : list Z) (j : json)
 (* schemas without map fields (every nesting level costs one stack frame: depth 256 instead of 128) *)
 Definition nomap_schema (S : schema) : bool :=
   forallb (fun md => forallb (fun fd => match fd_label fd with LMap _ => false | _ => true end) (md_fields md)) S.
+
+(* ---- stack frames a document needs (type-directed, exact): the visitor's stack holds STK_DEPTH = 256 frames, the
+   root object uses one; a message value pushes one frame, an array one, a map object one plus one per pair while its
+   value is processed.  The refinement theorem holds for every document with  1 + need <= 256;  a document that needs
+   more runs into the max-depth error of push (sp is a uint8 that wraps at 256). *)
+Section Need.
+  Variable S : schema.
+  Section Level.
+    Variable rec : mdesc -> list (list Z * json) -> nat.
+    Definition need_single (t : ftype) (v : json) : nat :=
+      match t, v with
+      | TMsg name, JObj ms => match find_msg S name with Some md => Datatypes.S (rec md ms) | None => O end
+      | _, _ => O
+      end.
+    Definition need_field (fd : fdesc) (v : json) : nat :=
+      match fd_label fd with
+      | LSingular => need_single (fd_type fd) v
+      | LRepeated _ =>
+        match v with
+        | JArr xs => Datatypes.S (fold_right (fun x m => Nat.max (need_single (fd_type fd) x) m) O xs)
+        | _ => O
+        end
+      | LMap _ =>
+        match v with
+        | JObj [] => 1%nat
+        | JObj ms => Datatypes.S (Datatypes.S (fold_right (fun x m => Nat.max (need_single (fd_type fd) (snd x)) m) O ms))
+        | _ => O
+        end
+      end.
+    Definition need_members (md : mdesc) (ms : list (list Z * json)) : nat :=
+      fold_right (fun x m => Nat.max (match find_field_name md (fst x) with
+                                      | Some fd => need_field fd (snd x)
+                                      | None => O
+                                      end) m) O ms.
+  End Level.
+  Fixpoint need (fuel : nat) (md : mdesc) (ms : list (list Z * json)) : nat :=
+    match fuel with O => O | Datatypes.S f => need_members (need f) md ms end.
+End Need.
+
+Definition frames_needed (S : schema) (root : list Z) (j : json) : nat :=
+  match find_msg S root, j with
+  | Some md, JObj ms => Datatypes.S (need S (json_depth j) md ms)
+  | _, _ => 1%nat
+  end.
